@@ -25,13 +25,70 @@ def _load_specs():
 _CTX = dict()
 
 
-def _solve_retry(i):
-    '''second attempt for an obligation the first pass left `unknown`: alone, with
-    four times the budget (a busy machine must not flip a verdict)'''
-    _CTX['timeout'] = _CTX['timeout'] * 4
+def fork_map(fn, items, k):
+    '''fn(item) for every item, each in its own forked child, at most k at a time;
+    results in order.  Plain os.fork from the calling (single) thread - no pool, no
+    helper threads in the parent, so a child never inherits a lock held by another
+    thread; the child leaves through os._exit, which also ends a z3 check that
+    could not be interrupted.'''
+    import pickle, select
+    items = list(items)
+    out = [None] * len(items)
+    running = dict()                      # read fd -> (index, pid, buffer)
+    nxt = 0
+    while nxt < len(items) or running:
+        while nxt < len(items) and len(running) < max(1, k):
+            r, w = os.pipe()
+            pid = os.fork()
+            if pid == 0:
+                code = 0
+                try:
+                    os.close(r)
+                    try:
+                        data = pickle.dumps(('ok', fn(items[nxt])))
+                    except BaseException as e:          # noqa
+                        data = pickle.dumps(('err', '%s: %s\n%s' % (type(e).__name__, e, traceback.format_exc())))
+                    with os.fdopen(w, 'wb') as f:
+                        f.write(data)
+                except BaseException:                  # noqa
+                    code = 1
+                finally:
+                    os._exit(code)
+            os.close(w)
+            running[r] = (nxt, pid, [])
+            nxt += 1
+        ready, _, _ = select.select(list(running), [], [], 1.0)
+        for r in ready:
+            chunk = os.read(r, 1 << 16)
+            idx, pid, buf = running[r]
+            if chunk:
+                buf.append(chunk)
+                continue
+            os.close(r)
+            del running[r]
+            try: os.waitpid(pid, 0)
+            except OSError: pass
+            try:
+                kind, val = pickle.loads(b''.join(buf))
+            except Exception:
+                kind, val = 'err', 'child %d died without a result' % pid
+            if kind == 'err':
+                raise RuntimeError('obligation worker failed: %s' % val)
+            out[idx] = val
+    return out
+
+
+def _solve_retry(arg):
+    '''another attempt for an obligation the first pass left `unknown`: with another
+    random seed and a larger budget (z3's divergence on a valid query usually
+    depends on the seed; a busy machine must not flip a verdict)'''
+    from . import solve as _solve
+    i, seed, mult = arg
+    _solve._SEED[0] = seed
+    _CTX['timeout'] = _CTX['timeout'] * mult
     _CTX['retry'] = True
     d = _solve_one(i)
-    d['retried'] = True
+    d['retried'] = seed
     return d
 
 
@@ -116,17 +173,21 @@ def run_unit(kind, key, tier, known, seed=0, inner=1):
             k = min(inner, n) if (inner > 1 and n > 8) else 1
             if n > 8:
                 k = max(k, 4)              # open obligations of broken code cost tens of seconds each
-            with mp.get_context('fork').Pool(k, maxtasksperchild=1) as pool:
-                out_obls = pool.map(_solve_one, range(n), chunksize=1)
+            out_obls = fork_map(_solve_one, range(n), k)
             again = [i for i, d in enumerate(out_obls)
                      if d['status'] == 'unknown' and d['kind'] != 'canary']
             if 0 < len(again) <= 6:
                 # few open obligations: the typical picture of a busy machine, not of
                 # broken code (which leaves many open and is decided by the native
                 # replay anyway).  At most three at a time, each in a fresh child.
-                with mp.get_context('fork').Pool(min(3, len(again)), maxtasksperchild=1) as pool:
-                    for i, d in zip(again, pool.map(_solve_retry, again, chunksize=1)):
+                for seed, mult in ((1, 2), (2, 3)):
+                    if not again:
+                        break
+                    res2 = fork_map(_solve_retry, [(i, seed, mult) for i in again], min(3, len(again)))
+                    for i, d in zip(list(again), res2):
                         out_obls[i] = d
+                        if d['status'] != 'unknown':
+                            again.remove(i)
         else:
             out_obls = []
         return dict(kind=kind, key=key, short=res.short, status=res.status,
